@@ -80,6 +80,16 @@ theorem addlOk_eq (r1 r2 : Schema → J → Bool) (s : Schema) (kvs : List (Stri
     intro kv hkv
     rw [hr a ha kv hkv]
 
+theorem countOk_eq (s : Schema) (kvs : List (String × J)) (hz : ∀ kv ∈ kvs, isZero kv.2 = false) :
+    countOk true s kvs = countOk false s kvs := by
+  have h : countedMembers true s kvs = countedMembers false s kvs := by
+    unfold countedMembers
+    congr 1
+    apply List.filter_congr
+    intro kv hkv
+    simp [hz kv hkv]
+  simp only [countOk, h]
+
 /-- JSON null stands for "unset": a required property given as null is missing, whatever x-nullable says -/
 theorem required_null_is_missing (skip : Bool) (d : Defs) (n : Nat) :
     validG skip d (n+1) { ty := "object", props := [("p", { ty := "string", nullable := true })], required := ["p"] } (.obj [("p", .null)]) = false := by
@@ -116,7 +126,7 @@ theorem skip_agrees_without_zero (d : Defs) : ∀ (n : Nat) (s : Schema) (j : J)
           propsOk_eq (validG true d n) (validG false d n) s kvs hmem
             (fun kp _ v hv => skip_agrees_without_zero d n kp.2 v (hmem2 kp.1 v hv)),
           addlOk_eq (validG true d n) (validG false d n) s kvs
-            (fun a _ kv hkv => skip_agrees_without_zero d n a kv.2 (hk kv hkv))]
+            (fun a _ kv hkv => skip_agrees_without_zero d n a kv.2 (hk kv hkv)), countOk_eq s kvs hk0]
 
 /-! ### the gap is real, in both directions -/
 
@@ -157,5 +167,15 @@ theorem deep_constraints :
     valid deepD 9 deepS (.obj [("a", .arr [.num 1000])]) = false ∧
     valid deepD 9 deepS (.obj [("a", .arr [.num 3000])]) = false ∧
     valid deepD 9 deepS (.obj [("a", .arr [])]) = false := by decide
+
+/-- property counts: enforced; an explicit zero of an optional member is counted by the reference and not by the relaxed
+    reading (the generated validator counts the members of the re-marshalled struct) -/
+def cntProps : List (String × Schema) := [("a", { ty := "string" }), ("flag", { ty := "boolean" }), ("n", { ty := "integer" })]
+def cntS : Schema := { ty := "object", minProps := some 1, maxProps := some 2, props := cntProps }
+
+theorem property_counts :
+    valid [] 5 cntS (.obj []) = false ∧ valid [] 5 cntS (.obj [("a", .str "x")]) = true ∧
+    valid [] 5 cntS (.obj [("a", .str "x"), ("flag", .bool true), ("n", .num 1000)]) = false ∧
+    valid [] 5 cntS (.obj [("flag", .bool false)]) = true ∧ validSkip [] 5 cntS (.obj [("flag", .bool false)]) = false := by decide
 
 end Gs.Props.C02
